@@ -20,3 +20,195 @@ Theorem C16_lowest_common_hypernyms_order_free : forall hyp V fuel a b la lb,
     lowest_common_hypernyms hyp fuel b a false = Some lb -> la = lb.
 Proof. exact lowest_common_hypernyms_sym. Qed.
 Print Assumptions C16_lowest_common_hypernyms_order_free.
+
+From Coq Require Import Lia Permutation Sorted.
+Require Import WnV.Proofs.TaxPaths WnV.Proofs.TaxReach WnV.Proofs.PermInv.
+
+(* ---- the taxonomy functions depend on the hypernym relation as a SET, not on the order in which it happens to be listed ([hyp_eqv hyp hyp'] = same hypernyms for every node, any order): the hypernym paths are the same set (a permutation when nothing is listed twice), and min_depth, max_depth, common_hypernyms, lowest_common_hypernyms (as lists), the shortest-path length, taxonomy_depth and roots are EQUAL, at any fuel *)
+Theorem C16_hypernym_paths_seteq :
+  forall (hyp hyp' : node -> list node) (f f' : nat) (x : node) (sr : bool)
+           (ps ps' : list (list node)),
+         hyp_eqv hyp hyp' ->
+         hypernym_paths hyp f x sr = Some ps ->
+         hypernym_paths hyp' f' x sr = Some ps' -> forall p : list node, In p ps <-> In p ps'.
+Proof. exact (@hypernym_paths_seteq). Qed.
+Print Assumptions C16_hypernym_paths_seteq.
+
+Theorem C16_hypernym_paths_perm :
+  forall (hyp hyp' : node -> list node) (f f' : nat) (x : node) (sr : bool)
+           (ps ps' : list (list node)),
+         hyp_eqv hyp hyp' ->
+         (forall y : node, NoDup (hyp y)) ->
+         (forall y : node, NoDup (hyp' y)) ->
+         hypernym_paths hyp f x sr = Some ps ->
+         hypernym_paths hyp' f' x sr = Some ps' -> Permutation ps ps'.
+Proof. exact (@hypernym_paths_perm). Qed.
+Print Assumptions C16_hypernym_paths_perm.
+
+Theorem C16_hypernym_paths_defined_eqv :
+  forall (hyp hyp' : node -> list node) (f : nat) (x : node) (sr : bool),
+         hyp_eqv hyp hyp' -> hypernym_paths hyp f x sr = None <-> hypernym_paths hyp' f x sr = None.
+Proof. exact (@hypernym_paths_defined_eqv). Qed.
+Print Assumptions C16_hypernym_paths_defined_eqv.
+
+Theorem C16_min_depth_eqv_fuel :
+  forall (hyp hyp' : node -> list node) (f : nat) (x : node) (sr : bool),
+         hyp_eqv hyp hyp' -> min_depth hyp f x sr = min_depth hyp' f x sr.
+Proof. exact (@min_depth_eqv_fuel). Qed.
+Print Assumptions C16_min_depth_eqv_fuel.
+
+Theorem C16_max_depth_eqv_fuel :
+  forall (hyp hyp' : node -> list node) (f : nat) (x : node) (sr : bool),
+         hyp_eqv hyp hyp' -> max_depth hyp f x sr = max_depth hyp' f x sr.
+Proof. exact (@max_depth_eqv_fuel). Qed.
+Print Assumptions C16_max_depth_eqv_fuel.
+
+Theorem C16_common_hypernyms_eqv_fuel :
+  forall (hyp hyp' : node -> list node) (f : nat) (a b : node) (sr : bool),
+         hyp_eqv hyp hyp' -> common_hypernyms hyp f a b sr = common_hypernyms hyp' f a b sr.
+Proof. exact (@common_hypernyms_eqv_fuel). Qed.
+Print Assumptions C16_common_hypernyms_eqv_fuel.
+
+Theorem C16_lowest_common_hypernyms_eqv_fuel :
+  forall (hyp hyp' : node -> list node) (f : nat) (a b : Z) (sr : bool),
+         hyp_eqv hyp hyp' ->
+         lowest_common_hypernyms hyp f a b sr = lowest_common_hypernyms hyp' f a b sr.
+Proof. exact (@lowest_common_hypernyms_eqv_fuel). Qed.
+Print Assumptions C16_lowest_common_hypernyms_eqv_fuel.
+
+Theorem C16_shortest_path_len_eqv_fuel :
+  forall (hyp hyp' : node -> list node) (f : nat) (a b : Z) (sr : bool),
+         hyp_eqv hyp hyp' -> shortest_path_len hyp f a b sr = shortest_path_len hyp' f a b sr.
+Proof. exact (@shortest_path_len_eqv_fuel). Qed.
+Print Assumptions C16_shortest_path_len_eqv_fuel.
+
+Theorem C16_taxonomy_depth_eqv_fuel :
+  forall (hyp hyp' : node -> list node) (f : nat) (syn : list node),
+         hyp_eqv hyp hyp' -> taxonomy_depth hyp f syn = taxonomy_depth hyp' f syn.
+Proof. exact (@taxonomy_depth_eqv_fuel). Qed.
+Print Assumptions C16_taxonomy_depth_eqv_fuel.
+
+Theorem C16_roots_eqv :
+  forall (hyp hyp' : node -> list node) (syn : list node),
+         hyp_eqv hyp hyp' -> roots hyp syn = roots hyp' syn.
+Proof. exact (@roots_eqv). Qed.
+Print Assumptions C16_roots_eqv.
+
+Theorem C16_taxonomy_order_independent :
+  forall (hyp hyp' : node -> list node) (V : list node) (a b : node)
+           (sr : bool) (syn : list node),
+         hyp_eqv hyp hyp' ->
+         closed hyp V ->
+         In a V ->
+         In b V ->
+         let F := S (S (length V)) in
+         (exists ps ps' : list (list node),
+            hypernym_paths hyp F a sr = Some ps /\
+            hypernym_paths hyp' F a sr = Some ps' /\
+            (forall p : list node, In p ps <-> In p ps') /\
+            ((forall y : node, NoDup (hyp y)) ->
+             (forall y : node, NoDup (hyp' y)) -> Permutation ps ps')) /\
+         min_depth hyp F a sr = min_depth hyp' F a sr /\
+         min_depth hyp F a sr <> None /\
+         max_depth hyp F a sr = max_depth hyp' F a sr /\
+         max_depth hyp F a sr <> None /\
+         common_hypernyms hyp F a b sr = common_hypernyms hyp' F a b sr /\
+         common_hypernyms hyp F a b sr <> None /\
+         shortest_path_len hyp F a b sr = shortest_path_len hyp' F a b sr /\
+         shortest_path_len hyp F a b sr <> None /\
+         lowest_common_hypernyms hyp F a b sr = lowest_common_hypernyms hyp' F a b sr /\
+         lowest_common_hypernyms hyp F a b sr <> None /\
+         orel (orel (fun p p' : list node => length p = length p')) (shortest_path hyp F a b sr)
+           (shortest_path hyp' F a b sr) /\
+         shortest_path hyp F a b sr <> None /\
+         taxonomy_depth hyp F syn = taxonomy_depth hyp' F syn /\ roots hyp syn = roots hyp' syn.
+Proof. exact (@taxonomy_order_independent). Qed.
+Print Assumptions C16_taxonomy_order_independent.
+
+(* ---- the node list of shortest_path is the one place where listing order shows (witness): only the choice among equally short chains to the SAME turning point can differ; its length, turning point and depth are invariant, and it is invariant under single inheritance.  (The listing order is database content — relation rows in rowid order — not hash order, so this does not contradict the property; the run-time check compares the actual lists across hash seeds.) *)
+Theorem C16_shortest_path_not_invariant :
+  let hyp := hyp_of [(10%Z, [1%Z; 2%Z]); (1%Z, [3%Z]); (2%Z, [3%Z])] in
+         let hyp' := hyp_of [(10%Z, [2%Z; 1%Z]); (1%Z, [3%Z]); (2%Z, [3%Z])] in
+         hyp_eqv hyp hyp' /\
+         (forall y : node, NoDup (hyp y)) /\
+         (forall y : node, NoDup (hyp' y)) /\
+         closed hyp [10%Z; 1%Z; 2%Z; 3%Z] /\
+         shortest_path hyp 6 10 3 false = Some (Some [2%Z; 3%Z]) /\
+         shortest_path hyp' 6 10 3 false = Some (Some [1%Z; 3%Z]) /\
+         shortest_path hyp 6 3 10 false = Some (Some [2%Z; 10%Z]) /\
+         shortest_path hyp' 6 3 10 false = Some (Some [1%Z; 10%Z]).
+Proof. exact (@shortest_path_not_invariant). Qed.
+Print Assumptions C16_shortest_path_not_invariant.
+
+Theorem C16_shortest_path_length_eqv_fuel :
+  forall (hyp hyp' : node -> list node) (f : nat) (a b : Z) (sr : bool),
+         hyp_eqv hyp hyp' ->
+         orel (orel (fun p p' : list node => length p = length p')) (shortest_path hyp f a b sr)
+           (shortest_path hyp' f a b sr).
+Proof. exact (@shortest_path_length_eqv_fuel). Qed.
+Print Assumptions C16_shortest_path_length_eqv_fuel.
+
+Theorem C16_shortest_path_choice_eqv :
+  forall (hyp hyp' : node -> list node) (f f' : nat) (a b : Z) (sr : bool)
+           (pm pm' : list (node * nat * list node)) (e e' : node * nat * list node),
+         hyp_eqv hyp hyp' ->
+         shortest_hyp_paths hyp f a b sr = Some pm ->
+         shortest_hyp_paths hyp' f' a b sr = Some pm' ->
+         sp_choice pm = Some e ->
+         sp_choice pm' = Some e' ->
+         shortest_path hyp f a b sr = Some (Some (tl (snd e))) /\
+         shortest_path hyp' f' a b sr = Some (Some (tl (snd e'))) /\
+         fst (fst e) = fst (fst e') /\ snd (fst e) = snd (fst e') /\ length (snd e) = length (snd e').
+Proof. exact (@shortest_path_choice_eqv). Qed.
+Print Assumptions C16_shortest_path_choice_eqv.
+
+Theorem C16_shortest_path_turning_point :
+  forall (hyp hyp' : node -> list node) (V : list node) (f f' : nat)
+           (a b : node) (p p' : list node),
+         hyp_eqv hyp hyp' ->
+         graph_ok hyp V ->
+         In a V ->
+         In b V ->
+         shortest_path hyp f a b false = Some (Some p) ->
+         shortest_path hyp' f' a b false = Some (Some p') ->
+         exists (c : node) (ua ub ua' ub' : list node),
+           p = ua ++ tl (rev (b :: ub)) /\
+           p' = ua' ++ tl (rev (b :: ub')) /\
+           chain hyp a ua /\
+           last ua a = c /\
+           chain hyp a ua' /\
+           last ua' a = c /\
+           chain hyp b ub /\
+           last ub b = c /\
+           chain hyp b ub' /\
+           last ub' b = c /\
+           is_dist hyp a c (length ua) /\
+           length ua' = length ua /\ is_dist hyp b c (length ub) /\ length ub' = length ub.
+Proof. exact (@shortest_path_turning_point). Qed.
+Print Assumptions C16_shortest_path_turning_point.
+
+Theorem C16_shortest_path_eqv_single_inheritance :
+  forall (hyp hyp' : node -> list node) (f : nat) (a b : Z) (sr : bool),
+         hyp_eqv hyp hyp' ->
+         (forall x : node, length (hyp x) <= 1) ->
+         (forall x : node, length (hyp' x) <= 1) ->
+         shortest_path hyp f a b sr = shortest_path hyp' f a b sr.
+Proof. exact (@shortest_path_eqv_single_inheritance). Qed.
+Print Assumptions C16_shortest_path_eqv_single_inheritance.
+
+Theorem C16_hypernym_paths_perm_needs_NoDup :
+  let hyp := hyp_of [(1%Z, [2%Z; 2%Z])] in
+         let hyp' := hyp_of [(1%Z, [2%Z])] in
+         hyp_eqv hyp hyp' /\
+         hypernym_paths hyp 5 1%Z false = Some [[2%Z]; [2%Z]] /\
+         hypernym_paths hyp' 5 1%Z false = Some [[2%Z]].
+Proof. exact (@hypernym_paths_perm_needs_NoDup). Qed.
+Print Assumptions C16_hypernym_paths_perm_needs_NoDup.
+
+Theorem C16_taxonomy_depth_synset_order_cyclic :
+  let hyp := hyp_of [(1%Z, [2%Z; 3%Z]); (2%Z, [1%Z]); (3%Z, [4%Z]); (5%Z, [2%Z])] in
+         taxonomy_depth hyp 10 [1%Z; 2%Z; 3%Z; 4%Z; 5%Z] = Some 3 /\
+         taxonomy_depth hyp 10 [5%Z; 1%Z; 2%Z; 3%Z; 4%Z] = Some 4.
+Proof. exact (@taxonomy_depth_synset_order_cyclic). Qed.
+Print Assumptions C16_taxonomy_depth_synset_order_cyclic.
+
